@@ -217,6 +217,7 @@ struct Driver {
   RNode rnode[K];
   long tempsAlive;
   long hintMax;
+  bool injectedSeen;  // an injected / allocation exception happened in this history
   std::vector<std::string> oracle;
   std::string hid;
   int step;
@@ -230,7 +231,7 @@ struct Driver {
     return r;
   }
 
-  Driver() : tempsAlive(0), hintMax(-1), step(0) {
+  Driver() : tempsAlive(0), hintMax(-1), injectedSeen(false), step(0) {
     for (int k = 0; k < K; ++k) {
       alive[k] = false;
       broken[k] = false;
@@ -1204,6 +1205,7 @@ struct Driver {
         bool limitErr = exn == "out_of_range";
         bool expected = exn == "injected" || exn == "bad_alloc" || (limitErr && Cfg::cap != 0);
         if (!expected) fail(exn == "bad_variant_access" || !isFlat ? "C11" : base(), op + " threw " + exn);
+        if (!limitErr) injectedSeen = true;
         // resynchronise the references with what is left
         for (int k = 0; k < K; ++k) {
           if (!alive[k]) continue;
@@ -1321,7 +1323,8 @@ struct Driver {
           fail("C02", "live elements " + std::to_string(G().live) + " but sets and nodes hold " + std::to_string(expect) + (threw ? " (after an exception)" : ""));
           tempsAlive += G().live - expect;  // reported once
         }
-        if (!threw) {
+        // (after an injected exception the basic guarantee allows moved-from elements, which then travel between sets)
+        if (!threw && !injectedSeen) {
           for (int k = 0; k < K; ++k) {
             if (!alive[k] || broken[k]) continue;
             std::vector<int> now;
@@ -1338,7 +1341,7 @@ struct Driver {
         }
       }
       // inline sets never allocate
-      if (!isFlat && !G().allocEvents.empty()) {
+      if (!isFlat && !threw && !G().allocEvents.empty()) {
         bool anyLarge = false;
         for (int k = 0; k < K; ++k)
           if ((before[k].alive && !before[k].small) || (alive[k] && !Cfg::small(v(k)))) anyLarge = true;
